@@ -71,7 +71,7 @@ def universe(tier, seed):
 def run(tier):
     ck = Check('C06', tier)
     items = universe(tier, ck.seed)
-    kinds = list(SEM_KINDS) + ['id/memo-off', 'failfirst', 'failfirst/memo-off'] + OBJECT_SHAPES + LISTY + ['tag/compiled-twice']
+    kinds = list(SEM_KINDS) + ['id/memo-off', 'failfirst', 'failfirst/memo-off'] + OBJECT_SHAPES + LISTY + ['tag/compiled-twice', 'iddefault']
     jobs, jobkey, cases = Jobs(), [], []
     for it in items:
         rules = [r['name'] for r in it['g']['rules']]
@@ -189,6 +189,9 @@ def run(tier):
                     bad('spec: parse failure', kind, s_)
             # (only on the left-recursive family: elsewhere a plain list returned by an action is spliced into the caller's sequence,
             #  the open-list representation behind KF-C01-1)
+            if 'iddefault' in res and not same(res['iddefault'], res['none']):
+                bad('an identity action with a defaulted parameter after the AST is distinguishable from no semantics (the parameter must be '
+                    'the declared rule parameter, or keep its default)', 'iddefault', res['none'])
             if 'tolist' in res and c['label'] == 'leftrec' and not same(res['tolist'], res['none']):
                 bad('an action that returns its (list) argument as a plain list is distinguishable from no semantics', 'tolist', res['none'])
             if c['backend'] == 'model' and 'ref' in res.get('tag/compiled-twice', {}) and \
